@@ -17,6 +17,7 @@
 From Coq Require Import List NArith Arith Bool String Lia ZifyN ZifyNat ZifyBool.
 From DC Require Import Base.Item Base.Utf8 Base.Unicode Base.UnicodeFacts Base.Stream Gen.TokenTable.
 From DC Require Import Lexer.LexerModel Tree.LineTree.
+From DC Require Lexer.LexerTotal.
 From DC Require Import Select.SelectParseModel Select.SelectPrintModel.
 Import ListNotations.
 Local Open Scope string_scope.
@@ -333,7 +334,7 @@ Definition word_byte (b : N) : bool :=
 Definition start_byte (b : N) : bool :=
   ((65 <=? b) && (b <=? 90)) || ((97 <=? b) && (b <=? 122)) || (b =? 95).
 
-Local Notation plex := (lex (list N)).
+Local Notation plex := (@lex (list N)).
 Local Notation rc := (read_char pure_stream).
 
 Lemma word_byte_lt : forall b, word_byte b = true -> b < 128.
@@ -345,7 +346,7 @@ Proof. intros b H. unfold encode_rune. destruct (N.ltb_spec b 128); [reflexivity
 Lemma word_byte_ident_char : forall b, word_byte b = true -> is_ident_char b = true.
 Proof.
   intros b H. pose proof (word_byte_lt b H) as Hlt.
-  unfold is_ident_char, is_letter, is_digit, rng. unfold word_byte in H.
+  unfold is_ident_char, Unicode.is_letter, Unicode.is_digit, rng. unfold word_byte in H.
   replace (b <? 128) with true by lia. cbv iota. lia.
 Qed.
 
@@ -399,7 +400,7 @@ Definition tail_stops (tail : list N) : Prop :=
 
 Lemma take_ident_word : forall w (l : plex) rs tail fuel,
   l_eof l = false -> is_ident_char (l_ch l) = true -> l_src l = w ++ tail ->
-  forallb word_byte w = true -> tail_stops tail -> (length w + 2 <= fuel)%nat ->
+  forallb word_byte w = true -> tail_stops tail -> (List.length w + 2 <= fuel)%nat ->
   exists l', take_ident_runes pure_stream fuel (l, rs) = Some (l', rev w ++ l_ch l :: rs).
 Proof.
   induction w as [|b w IH]; intros l rs tail fuel He Hc Hs Hw Ht Hf.
@@ -417,7 +418,7 @@ Proof.
     unfold take_ident_runes. cbn [loop]. rewrite Hc.
     cbn [app] in Hs.
     destruct (rc_ascii l b (w ++ tail) He Hs (word_byte_lt b Hb)) as [Hs1 [Hch1 He1]].
-    assert (Hf' : (length w + 2 <= f)%nat) by (cbn [length] in Hf; lia).
+    assert (Hf' : (List.length w + 2 <= f)%nat) by (cbn [List.length] in Hf; lia).
     destruct (IH (rc l) (l_ch l :: rs) tail f He1
                  ltac:(rewrite Hch1; apply word_byte_ident_char; exact Hb) Hs1 Hw Ht Hf') as [l' Hl'].
     unfold take_ident_runes in Hl'. rewrite Hl'. rewrite Hch1. exists l'.
@@ -433,18 +434,14 @@ Proof.
 Qed.
 
 Lemma peek_char_same : forall (l : plex), snd (peek_char pure_stream l) = l.
-Proof.
-  intros l. unfold peek_char. destruct (l_eof l); [reflexivity|].
-  cbn [s_peek pure_stream pure_peek]. destruct l as [src ch ps ef]. cbn.
-  destruct (firstn (Nat.min 1 bufio_size) src); reflexivity.
-Qed.
+Proof. exact LexerTotal.peek_char_st. Qed.
 
 (* readIdentifier on a word of at least two ASCII word bytes (so that x'..' / b'..' literals are
    excluded by the second byte): kind = Lookup(ASCII upper-casing), Value = the word as written *)
 Lemma read_identifier_ascii_word : forall c0 b1 w (l : plex) tail fuel,
   l_eof l = false -> l_ch l = c0 -> l_src l = (b1 :: w) ++ tail ->
   start_byte c0 = true -> forallb word_byte (b1 :: w) = true -> tail_stops tail ->
-  (length w + 4 <= fuel)%nat ->
+  (List.length w + 4 <= fuel)%nat ->
   exists l', read_identifier pure_stream fuel l =
              Some (mk_item (lookup (to_upper (c0 :: b1 :: w))) (c0 :: b1 :: w) (l_pos l) false, l').
 Proof.
@@ -467,7 +464,7 @@ Proof.
   destruct Hsel as [Hpk39 ->]. rewrite Hpk39, !andb_false_r.
   destruct (take_ident_word (b1 :: w) l [] tail fuel He
               ltac:(rewrite Hc; apply word_byte_ident_char; exact Hw0) Hs Hw Ht
-              ltac:(cbn [length]; lia)) as [l' Hl'].
+              ltac:(cbn [List.length]; lia)) as [l' Hl'].
   rewrite Hl'. cbn [LexerModel.bind]. exists l'.
   unfold frev. rewrite rev_append_rev, app_nil_r, rev_app_distr, rev_involutive, Hc. cbn [rev app].
   assert (Hall : forallb word_byte (c0 :: b1 :: w) = true) by (cbn [forallb] in *; rewrite Hw0; exact Hw).
